@@ -119,6 +119,34 @@ def strip_strings_comments(line):
     return out
 
 
+def cli_convert(text, stem, size, init, filt, deps=True):
+    """The same conversion through the command line (file in, file out): -> result dict like harness.convert()"""
+    import io
+    import os
+    import sys
+    from coco import decb_to_b09
+    from .. import run
+
+    d = os.path.join(run.WORK, "c13-%d" % os.getpid())
+    os.makedirs(d, exist_ok=True)
+    src, dst = os.path.join(d, stem + ".bas"), os.path.join(d, "out.b09")
+    with open(src, "w", newline="") as f:
+        f.write(text)
+    if os.path.exists(dst):
+        os.remove(dst)
+    argv = (["-s", str(size)] if size != 32 else []) + ([] if init else ["-z"]) + (["-l"] if filt else []) + ([] if deps else ["-D"]) + [src, dst]
+    saved = (sys.stdout, sys.stderr)
+    sys.stdout, sys.stderr = io.StringIO(), io.StringIO()
+    try:
+        decb_to_b09.start(argv)
+        with open(dst, newline="") as f:
+            return {"ok": True, "out": f.read().replace("\r", "\n")}
+    except BaseException as exc:  # noqa: BLE001 - SystemExit included
+        return {"ok": False, "exc": type(exc).__name__, "documented": True, "msg": str(exc)[:200]}
+    finally:
+        sys.stdout, sys.stderr = saved
+
+
 def run_case(case):
     rng = random.Random(case["seed"])
     hostile = HOSTILE[case["seed"] % len(HOSTILE)] if case.get("hostile", True) else None
@@ -135,7 +163,12 @@ def run_case(case):
         # without the standard prologue nothing but the program's own statements pulls procedures in
         opts["add_standard_prefix"] = False
     obs = {"counters": {}, "viols": [], "sets": {}}
-    conv = harness.convert(text, **opts)
+    if case.get("cli") and re.fullmatch(r"[a-zA-Z0-9_-]+", pname) and not case.get("no_prefix"):
+        # through the command line: its -s / -z / -l are these options, its procedure name the input file's stem
+        conv = cli_convert(text, pname, size, opts["initialize_vars"], opts["filter_unused_linenum"])
+        obs["counters"]["cli_bundles"] = 1
+    else:
+        conv = harness.convert(text, **opts)
     plain = harness.convert(text, **dict(opts, output_dependencies=False))
     if not conv["ok"] or not plain["ok"]:
         obs["nontrivial"] = False
@@ -289,7 +322,7 @@ def cases(tier, seed):
     for t in MAXIMAL:
         for size in (32, 64, 200, 16, 1, 31, 255):
             k += 1
-            yield {"seed": k, "size": size, "procname": names[k % len(names)], "hostile": False, "fixed_program": t}
+            yield {"seed": k, "size": size, "procname": names[k % len(names)], "hostile": False, "fixed_program": t, "cli": k % 2 == 0}
     # every statement kind alone, with and without the standard prologue (whose RUN _ecb_start otherwise roots every bundle)
     from . import c07
     for j, t in enumerate(c07.SINGLE_STATEMENTS):
@@ -299,4 +332,4 @@ def cases(tier, seed):
                    "no_prefix": np_}
     for i in range(n):
         yield {"seed": seed * 2654435 + i, "size": [32, 64, 200, 16, 1, 31][i % 6], "procname": names[i % len(names)],
-               "hostile": i % 4 != 3, "sample": i % 150 == 0, "no_prefix": i % 5 == 4}
+               "hostile": i % 4 != 3, "sample": i % 150 == 0, "no_prefix": i % 5 == 4, "cli": i % 7 == 3}
